@@ -1500,6 +1500,7 @@ func run(seed int64, n int, dir string, _ []string) {
 	lateralDeepCases(g, pr, o, n)
 	aggSubqueryCases(g, pr, o, n)
 	nameRuleCases(g, pr, o, n)
+	joinGrouping(pr, o)
 	starExpansionCases(g, pr, o, n)
 	precedenceSessions(g, o, n)
 	recursiveNamedCases(g, o, n)
